@@ -949,11 +949,15 @@ def run(ctx):
             ch = E.get(self.key)
             self.part.append((val, ch))
     IH = IsHooks()
-    eng = Engine(db, prog, IH)
-    eng.keep_dead = True
-    IH.key = '%s::%s' % (eng.frame_id(isf), isf.params[0])
-    eng.run(isf, {IH.key: CHARS})
-    rep.count_states(eng.states, eng.transitions)
+    IH.tracked_global = lambda path: True
+    IH.precise_arith = lambda path: True
+    # every byte value on its own (a table-driven issafe() walks its table with a concrete byte)
+    for b_ in sorted(CHARS):
+        eng = Engine(db, prog, IH, max_states=20000)
+        eng.keep_dead = True
+        IH.key = '%s::%s' % (eng.frame_id(isf), isf.params[0])
+        eng.run(isf, {IH.key: fs(b_)})
+        rep.count_states(eng.states, eng.transitions)
     must_unsafe = set(range(0, 33)) | {ord(c) for c in '()<>"\\,;'} | {127} | set(range(-128, 0))
     covered = set()
     leaks = []
